@@ -17,7 +17,7 @@ func init() {
 	register(&propCheck{
 		ID:    "C08",
 		Run:   runC08,
-		Level: "Static analysis (abstract interpretation of every function of package protocol that takes a byte slice, each as an entry point of its own on an arbitrary input; guard prover over the dominating conditions; loop-head invariants by simultaneous induction; success post-conditions of child decoders). Decides: bounds/<func>/<site> — every index, slice, fixed-width read and copy window on the input (and on every local buffer of known length) is in range on every path, proved from the conditions that dominate it (length guards, loop conditions, verified loop invariants, the guards a successfully returned child decoder passed, declared ranges of wire fields); wrap/<func>/<expr> — no guard, slice bound, cursor step or allocation size of a decoder, and no size function a decoder calls, is computed from a wire field in 8- or 16-bit arithmetic whose operand ranges admit overflow; progress/<func>/<loop> — every loop either ranges over a slice, or has a cursor that grows by at least 1 on every path back to the loop head and is bounded (by the loop condition against a loop-invariant bound, by a verified invariant cursor <= len(input), or by a guard every completed iteration passed); alloc/<func>/<site> — every allocation size is bounded by a wire field of at most 16 bits or by the input length. A site the prover cannot discharge fails the check unless it is a reviewed row of assumed_safe.json (keyed by function, site and proof obligation). These give: no index/slice panic and no unbounded loop in any packet-header decoder for any input. Not decided: wall-clock time beyond loop progress; panics inside the standard library for arguments the rules do not model.",
+		Level: "Static analysis (abstract interpretation of every function of package protocol that takes a byte slice, each as an entry point of its own on an arbitrary input; guard prover over the dominating conditions; loop-head invariants by simultaneous induction; success post-conditions of child decoders). Decides: bounds/<func>/<site> — every index, slice, fixed-width read and copy window on the input (and on every local buffer of known length) is in range on every path, proved from the conditions that dominate it (length guards, loop conditions, verified loop invariants, the guards a successfully returned child decoder passed, declared ranges of wire fields); wrap/<func>/<expr> — no guard, slice bound, cursor step or allocation size of a decoder, and no size function a decoder calls, is computed from a wire field in 8- or 16-bit arithmetic whose operand ranges admit overflow; progress/<func>/<loop> — every loop either ranges over a slice, or has a cursor that grows by at least 1 on every path back to the loop head and is bounded (by the loop condition against a loop-invariant bound, by a verified invariant cursor <= len(input), or by a guard every completed iteration passed); alloc/<func>/<site> — every allocation size is bounded by a wire field of at most 16 bits or by the input length. A site the prover cannot discharge fails the check unless it is a reviewed row of assumed_safe.json (keyed by function, site and proof obligation). These give: no index/slice panic and no unbounded loop in any packet-header decoder for any input. Not decided: wall-clock time beyond loop progress; panics inside the standard library for arguments the rules do not model. The loop-condition bound of progress is not accepted when the bound mentions len(E) and the loop body assigns E (a list that grows with the loop).",
 		Assumptions: []string{
 			"Go semantics of indexing, slicing (len used as the bound, conservatively) and integer conversion; encoding/binary readers need exactly their width",
 			"sizes are mathematical integers except where a narrow unsigned operation can overflow by the declared ranges of its operands (then the value is opaque)",
